@@ -449,7 +449,7 @@ Definition buf_write_to (s_buf : gslice) (s_off s_lastRead : Z) (w : unit) (w_m 
 Definition translated_buf_write_to := true.
 
 (* PrintCtx.ReadFrom  (BOk results state | BRange state | BPanic v state) *)
-Definition buf_read_from (s_buf : gslice) (s_off s_lastRead : Z) (f_isnil : gslice -> bool) (f_growSlice : gslice -> Z -> bres gslice unit) (r : unit) (script_ : list rresp) : bres (Z * err) (bstate * list rresp) :=
+Definition buf_read_from (s_buf : gslice) (s_off s_lastRead : Z) (f_isnil : gslice -> bool) (f_growSlice : gslice -> Z -> bres gslice unit) (f_errors_is : err -> err -> bool) (r : unit) (script_ : list rresp) : bres (Z * err) (bstate * list rresp) :=
   let n := 0 in
   let err := ENil in
   let s_lastRead := 0 in
